@@ -52,27 +52,8 @@ const vfBubbleEpochNs = int64(946684800) * 1_000_000_000
 
 // ------------------------------------------------------------ running the real code
 
-// vfC17GcStaleCp is cmd/syncer.go gcStaleCheckpoint's closure `gcStaleCp`
-// (the closure is not reachable from a test; the extractor records its source
-// text as fact c17_gcStaleCp and the check compares it with the expectation).
 func vfC17GcStaleCp(cli client.Redis, runIdMap map[string]struct{}, stale time.Duration) {
-	data, err := GetAllCheckpointHash(cli)
-	if err != nil {
-		return
-	}
-	if len(data)%2 == 1 {
-		return
-	}
-	for i := 0; i < len(data)-1; i += 2 {
-		runId := data[i]
-		cpn := data[i+1]
-		_, exist := runIdMap[runId]
-		total, deleted, err := DelStaleCheckpoint(cli, cpn, runId, stale, exist)
-		_ = err
-		if !exist && total == deleted {
-			_ = DelCheckpointHash(cli, runId)
-		}
-	}
+	VfGcStaleCp(cli, runIdMap, stale)
 }
 
 // vfC17Orders splits the operation's log at INFO requests: for each INFO the
@@ -376,16 +357,41 @@ func vfC17Sane(c *vfC17Case) (bool, string) {
 	}
 	// update
 	if n != c.local {
+		// the new key is fresh, or holds what a rename cut after its first HSET left: fields of
+		// the ids that read X in d (with a run id) and are smaller than X everywhere else
+		cut := false
 		for _, it := range c.st.Items {
 			if it.Key != c.local {
 				continue
 			}
+			has := false
 			for _, f := range it.Fields {
-				rid, _ := vfSplitField(f[0])
-				if vfIn(c.ids, rid) {
+				rid, sfx := vfSplitField(f[0])
+				if sfx == CheckpointRunIdSuffix && f[1] != rid && vfIn(c.ids, rid) {
+					return false, "local-not-fresh"
+				}
+				if !vfIn(c.ids, rid) {
+					continue
+				}
+				has = true
+				if sfx == CheckpointOffsetSuffix || sfx == CheckpointMtimeSuffix {
+					v, err := strconv.ParseInt(f[1], 10, 64)
+					if err != nil || (sfx == CheckpointOffsetSuffix && it.Db != best && v >= X) {
+						return false, "local-not-fresh"
+					}
+				}
+			}
+			if has && it.Db == best {
+				o, ok := vfLast(it.Fields, c.ids, CheckpointOffsetSuffix)
+				r, ok2 := vfLast(it.Fields, c.ids, CheckpointRunIdSuffix)
+				if !ok || !ok2 || o != strconv.FormatInt(X, 10) || r == "?" {
 					return false, "local-not-fresh"
 				}
 			}
+			cut = cut || has
+		}
+		if cut {
+			return true, "rename-cut"
 		}
 		return true, "rename"
 	}
@@ -463,6 +469,55 @@ func vfC17Do(t *testing.T, s *vfutil.Session, c *vfC17Case, tag int, src string)
 	if c.kind == "g" {
 		vfC17GcSpare(s, c, run)
 	}
+	if c.kind == "u" && sane && !err0 && p0.ok {
+		// what the next start really does (syncer.updateCheckpoint + RedisOutput.StartPoint): order the
+		// ids by the hash, run UpdateCheckpoint(local) TO COMPLETION on the crash state, read under LOCAL
+		for k := 0; k <= len(run.writes); k++ {
+			cut := run.seedLen
+			if k > 0 {
+				cut = run.writes[k-1] + 1
+			}
+			got := vfC17NextStart(vfdoubles.Replay(run.log[:cut], 0), c.local, c.ids)
+			pk, errk := vfParsePos(got)
+			if errk || !pk.ok || pk.off < p0.off || pk.db != p0.db {
+				req := "-"
+				if k > 0 {
+					req = run.lines[k-1]
+				}
+				s.Violate("restart-after-update-loses-position", fmt.Sprintf("resume position %s before; stopped after request #%d (%s), the next start (UpdateCheckpoint re-run to completion, GetCheckpoint under the local key) reads %s [%s]", run.sp[0], k, req, got, why),
+					map[string]interface{}{"op": run.op, "crash_after_request": k, "before": run.sp[0], "next_start": got})
+				break
+			}
+			s.Count("next_start_checked")
+		}
+	}
+}
+
+// vfC17NextStart: syncer.updateCheckpoint's id ordering + the real UpdateCheckpoint run to completion,
+// then what RedisOutput.StartPoint reads: GetCheckpoint under the LOCAL key (the real
+// syncer.updateCheckpoint / SetRunId / StartPoint chain itself runs in package syncer, TestVerifC17Start).
+func vfC17NextStart(tg *vfdoubles.Target, local string, ids []string) string {
+	cli := VfConn(tg)
+	defer cli.Close()
+	ordered := ids
+	_, cpRunId, err := GetCheckpointHash(cli, ids)
+	if err != nil {
+		return "err"
+	}
+	if len(ids) > 1 && cpRunId == ids[1] && ids[1] != ids[0] {
+		ordered = []string{ids[1], ids[0]}
+	}
+	if err := UpdateCheckpoint(cli, local, ordered); err != nil {
+		return "err"
+	}
+	cpi, db, err := GetCheckpoint(cli, local, ids)
+	if err != nil {
+		return "err"
+	}
+	if db < 0 {
+		return "none"
+	}
+	return fmt.Sprintf("%d@%d", cpi.Offset, db)
 }
 
 // gc never deletes, for an id a source still reports, in the database that
@@ -542,8 +597,16 @@ func vfHexId(r *vfutil.Rand) string { return fmt.Sprintf("%x", r.Bytes(20)) }
 var vfC17Names = []string{config.CheckpointKey, config.CheckpointKey + "-{06S}", config.CheckpointKey + "-{Qi}",
 	BisyncCheckpointKeyPrefix + ":0a1b2c3d4e5f60718293a4b5", "cp"}
 
+// vfCpFields: mtime == vfNoMtime leaves the `_mtime` field out — what the replay path writes
+// (syncer/output.go sendCmdsBatch: `_runid`, `_version`, `_offset` only; `_mtime` comes from
+// SetCheckpoint alone), so fetchCheckpoint reads Mtime 0 there.
+const vfNoMtime = int64(-1 << 62)
+
 func vfCpFields(rid string, off int64, mtime int64, withRunId bool) [][2]string {
-	fs := [][2]string{{rid + CheckpointMtimeSuffix, strconv.FormatInt(mtime, 10)}}
+	fs := [][2]string{}
+	if mtime != vfNoMtime {
+		fs = append(fs, [2]string{rid + CheckpointMtimeSuffix, strconv.FormatInt(mtime, 10)})
+	}
 	if withRunId {
 		fs = append(fs, [2]string{rid + CheckpointRunIdSuffix, rid})
 	}
@@ -583,7 +646,13 @@ func vfC17Spread(r *vfutil.Rand, st *VfState, key string, rid string, top int64,
 				off = -1
 			}
 		}
-		fs := vfCpFields(rid, off, mt-int64(i)*7-int64(r.Intn(5)), true)
+		m := mt - int64(i)*7 - int64(r.Intn(5))
+		if r.Chance(1, 3) {
+			m = vfNoMtime
+		} else if r.Chance(1, 12) {
+			m = 0
+		}
+		fs := vfCpFields(rid, off, m, true)
 		st.Items = append(st.Items, VfItem{Db: d, Key: key, Fields: fs})
 	}
 	return
@@ -794,15 +863,23 @@ func vfC17GenGc(r *vfutil.Rand) *vfC17Case {
 		st := &VfState{}
 		vfC17Spread(r, st, key, rid, top, 0, strict)
 		for j := range st.Items {
-			st.Items[j].Fields[0][1] = strconv.FormatInt(mtime(), 10)
+			fs := st.Items[j].Fields
+			for k := range fs {
+				_, sfx := vfSplitField(fs[k][0])
+				switch sfx {
+				case CheckpointMtimeSuffix:
+					fs[k][1] = strconv.FormatInt(mtime(), 10)
+					if r.Chance(1, 40) {
+						fs[k][1] = "zz"
+					}
+				case CheckpointRunIdSuffix:
+					if r.Chance(1, 25) {
+						fs[k][1] = vfutil.Pick(r, rids) // runid value of another id
+					}
+				}
+			}
 			if r.Chance(1, 15) {
-				st.Items[j].Fields = st.Items[j].Fields[:len(st.Items[j].Fields)-1] // no offset field
-			}
-			if r.Chance(1, 25) {
-				st.Items[j].Fields[1][1] = vfutil.Pick(r, rids) // runid value of another id
-			}
-			if r.Chance(1, 40) {
-				st.Items[j].Fields[0][1] = "zz"
+				st.Items[j].Fields = fs[:len(fs)-1] // no offset field
 			}
 		}
 		c.st.Items = append(c.st.Items, st.Items...)
